@@ -79,7 +79,7 @@ Proof.
     unfold step_live, op_run in E. cbn [lv_log lv_fs lv_acked] in E.
     destruct op as [recs|k|k|].
     - destruct (log_append repaired l d (map to_wire recs)) as [[[rc l'] d'] ms]. apply (f_equal lv_log) in E. discriminate E.
-    - destruct (log_truncate l d k) as [[[rc l'] d'] ms]. apply (f_equal lv_log) in E. discriminate E.
+    - destruct (log_truncate repaired l d k) as [[[rc l'] d'] ms]. apply (f_equal lv_log) in E. discriminate E.
     - destruct (log_trim l d k) as [[[rc l'] d'] ms]. apply (f_equal lv_log) in E. discriminate E.
     - rewrite (li_fs _ _ _ _ _ _ Hinv) in E.
       rewrite open_log_clean in E by (apply (li_clean _ _ _ _ _ _ Hinv) || apply (li_valid _ _ _ _ _ _ Hinv)).
